@@ -16,6 +16,10 @@ CHECKS = {
         technique='TLA+ laws (CatLaws.tla) and a KeyedStore state machine model-checked by TLC; TLC-emitted universe pairs and container histories replayed on real Category objects, dict and set, and trace-validated',
         text='TLC checks the equivalence / erasure laws on every pair of a bounded universe and enumerates every container history of length 4 over 3 keys; the universe pairs and histories are replayed on real objects built three ways (constructors, parser, operators) and every ==, !=, hash, ^, text comparison, clear_features and dict/set operation is judged by ValueTrace.tla',
         ref='6/C13'),
+    'C06': dict(
+        technique='declarative matching relation in TLA+ (Unify.tla) with laws model-checked by TLC; every state of the bounded model replayed into real Unification objects; real calls and TLC-generated life-cycle histories trace-validated',
+        text='MCUnify checks the relation\'s laws on 6 pattern pairs x all pairs of depth-1 universes (both feature systems) and emits each state as a vector; the vectors, the pattern pairs intercepted from en.py/ja.py and random linear patterns on inventory / instantiated / perturbed inputs are run on real matchers; verdict, every binding, read-after-failure and answer-once are judged by UnifyTrace.tla; all length-4 life-cycle histories of UnifyObj.tla are replayed',
+        ref='6/C06'),
 }
 NOT_YET = 'check not built yet (build in progress; see DESIGN.md section 12)'
 
